@@ -67,7 +67,17 @@ fn stun_any_type() -> impl Strategy<Value = Pay> {
 }
 
 pub fn ip_tweak() -> impl Strategy<Value = IpTweak> {
-    (prop_oneof![2 => Just(0u8), 1 => any::<u8>()], any::<u16>(), prop_oneof![2 => Just(2u8), 1 => Just(0u8), 3 => 0u8..8], prop_oneof![2 => Just(64u8), 1 => Just(1u8), 1 => Just(255u8), 1 => any::<u8>()]).prop_map(|(tos, id, flags, ttl)| IpTweak { tos, id, flags, ttl })
+    (prop_oneof![2 => Just(0u8), 1 => any::<u8>()], any::<u16>(), prop_oneof![2 => Just(2u8), 1 => Just(0u8), 3 => 0u8..8], prop_oneof![2 => Just(64u8), 1 => Just(1u8), 1 => Just(255u8), 1 => any::<u8>()]).prop_map(|(tos, id, flags, ttl)| IpTweak { tos, id, flags, ttl, tcp_window: None, tcp_urg: None })
+}
+
+/// the same plus TCP window / urgent pointer values (window: 0, 1, around the size of typical
+/// answers, maximum; urgent pointer: 0, small, maximum)
+pub fn ip_tcp_tweak() -> impl Strategy<Value = IpTweak> {
+    (ip_tweak(), prop::option::weighted(0.7, prop_oneof![prop::sample::select(vec![0u16, 1, 11, 64, 100, 128, 255, 256, 392, 512, 1024, 1460, 65535]), any::<u16>()]), prop::option::weighted(0.3, prop_oneof![prop::sample::select(vec![0u16, 1, 65535]), any::<u16>()])).prop_map(|(mut t, w, u)| {
+        t.tcp_window = w;
+        t.tcp_urg = u;
+        t
+    })
 }
 
 pub fn case_strategy() -> impl Strategy<Value = Case> {
